@@ -68,6 +68,7 @@ def floors(tier):
     return {"monitors": {NONE_IFF: 50000, ROUTE: 20000},
             "counters": {"history_call:dist_cut": 2000, "history_call:sub_network": 1000, "history_call:all_pairs_cut": 1000,
                          "path_request_with_output_dict": 5000, "path_request_with_cut": 3000,
+                         "returned_route_modified_by_the_caller": 5000,
                          "history_call:failing_request": 1000},
             "classes": {"self_loop": 200, "parallel_edges": 200, "parallel_diff_weight": 100, "zero_weight": 200,
                         "orient_two_way": 200, "orient_direct": 200, "orient_reverse": 200,
@@ -362,6 +363,10 @@ def run_case(case, ctx):
             return bad({"what": prob[0], "details": prob[1], "s": ids[s], "t": ids[t], "path": list(path),
                         "coords": coords, "true_distance": d, "call_index": i})
         judged_paths += 1
+        # aliasing: the returned route belongs to the caller, who may move it, re-time it, give it features
+        if i % 2 == 0:
+            M.scribble(tr)
+            ctx.count("returned_route_modified_by_the_caller")
         if flags & F_ZERO:
             cls.add("route_zero_weight_edge")
         if flags & F_AGAINST:
